@@ -10,3 +10,18 @@ func VerifC15EntryWire(e *CacheEntry) []byte {
 	}
 	return e.wire
 }
+
+// VerifC15EntryStripped exposes the DO=0 body an entry prepared at admission
+// (nil: none) — accessor only.
+func VerifC15EntryStripped(e *CacheEntry) []byte {
+	if e == nil {
+		return nil
+	}
+	return e.stripped
+}
+
+// VerifC15WireFlags exposes prepareWireServe's verdict on a packed body.
+func VerifC15WireFlags(body []byte) (eligible, hasDNSSEC, chaseSafe bool) {
+	f := prepareWireServe(body)
+	return f&wireEligible != 0, f&wireHasDNSSEC != 0, f&wireChaseSafe != 0
+}
